@@ -130,20 +130,22 @@ Section StateFailures.
 
   Lemma csr_ok_state fuel hp rauth rstate ps a s ps' :
     check_state_response PS sig_ok allowed pcall fuel hp rauth rstate ps = (CsrOk a s, ps') ->
-    forallb is_state a = true /\ forallb is_state s = true.
+    forallb is_state a = true /\ forallb is_state s = true /\
+    one_room (untrusted_events rauth ++ untrusted_events rstate) = true.
   Proof.
     unfold check_state_response.
     destruct (forallb is_state (untrusted_events rauth)) eqn:Hsa; simpl; [|discriminate].
     destruct (scan_state [] (untrusted_events rstate)) eqn:Hscan.
     { apply scan_state_err in Hscan. destruct Hscan as [-> | ->]; discriminate. }
     apply scan_state_none in Hscan.
+    destruct (one_room _) eqn:Hroom; simpl; [|discriminate].
     destruct (auth_loop _ _ _ _ _ _ _ _ _) as [[fails m'] ps1]. destruct fails; [|discriminate].
-    intros [= <- <- <-]. split; apply forallb_keep; auto.
+    intros [= <- <- <-]. split; [|split]; auto; apply forallb_keep; auto.
   Qed.
 
   (* the response fails as a whole and the provider is not even consulted *)
   Definition whole_failure (r : csr_result * PS) (ps : PS) : Prop :=
-    r = (CsrNoStateKey, ps) \/ r = (CsrDuplicate, ps).
+    r = (CsrNoStateKey, ps) \/ r = (CsrDuplicate, ps) \/ r = (CsrMixedRooms, ps).
 
   Theorem csr_duplicate_fails fuel hp rauth rstate ps l1 e1 l2 e2 l3 :
     untrusted_events rstate = l1 ++ e1 :: l2 ++ e2 :: l3 ->
@@ -170,13 +172,55 @@ Section StateFailures.
         rewrite Hk in Hsa. discriminate.
       + revert Hscan. eapply scan_state_nonstate; eauto.
   Qed.
+
+  (* fix F85: events of two rooms in one response *)
+  Theorem csr_mixed_rooms_fails fuel hp rauth rstate ps :
+    one_room (untrusted_events rauth ++ untrusted_events rstate) = false ->
+    whole_failure (check_state_response PS sig_ok allowed pcall fuel hp rauth rstate ps) ps.
+  Proof.
+    intros Hr. unfold check_state_response, whole_failure.
+    destruct (forallb is_state (untrusted_events rauth)); simpl; [|now left].
+    destruct (scan_state [] (untrusted_events rstate)) eqn:Hscan.
+    - apply scan_state_err in Hscan. destruct Hscan as [-> | ->]; auto.
+    - rewrite Hr. simpl. auto.
+  Qed.
+
+  (* since fix F82 the retry loop terminates whatever the provider answers: with the fuel
+     computed from the response CheckStateResponse never runs out, for ANY provider *)
+  Lemma auth_loop_total fuel hp : forall l fails m ps,
+    (forall e, In e l -> (2 * length (auth_ids e) < fuel)%nat) ->
+    fst (fst (auth_loop PS allowed pcall fuel hp l fails m ps)) <> None.
+  Proof.
+    induction l as [|e l IH]; intros fails m ps Hf; simpl; [discriminate|].
+    unfold check_allowed.
+    pose proof (gather_total PS pcall (auth_ids e) fuel hp [] m ps (Hf e (or_introl eq_refl))) as Ht.
+    destruct (gather PS pcall fuel hp (auth_ids e) [] m ps) as [[[st acc] m1] ps1]. simpl in Ht.
+    assert (Hf' : forall e', In e' l -> (2 * length (auth_ids e') < fuel)%nat) by (intros; apply Hf; now right).
+    destruct st; try congruence; try (apply IH; auto).
+    destruct (allowed e acc); apply IH; auto.
+  Qed.
+
+  Theorem csr_total_any_provider fuel hp rauth rstate ps :
+    (forall e, In e (untrusted_events rauth ++ untrusted_events rstate) ->
+               (2 * length (auth_ids e) < fuel)%nat) ->
+    fst (check_state_response PS sig_ok allowed pcall fuel hp rauth rstate ps) <> CsrOutOfFuel.
+  Proof.
+    intros Hf. unfold check_state_response.
+    destruct (forallb is_state (untrusted_events rauth)); simpl; [|discriminate].
+    destruct (scan_state [] (untrusted_events rstate)) eqn:Hscan.
+    { apply scan_state_err in Hscan. destruct Hscan as [-> | ->]; discriminate. }
+    destruct (one_room _); simpl; [|discriminate].
+    match goal with |- context [auth_loop ?a ?b ?c ?d ?e ?f ?g ?h ?i] =>
+      pose proof (auth_loop_total d e f g h i Hf) as Ht;
+      destruct (auth_loop a b c d e f g h i) as [[fails m'] ps1] end.
+    simpl in Ht. destruct fails; [discriminate|congruence].
+  Qed.
 End StateFailures.
 
 (* ---------- CheckStateResponse against a provider that is a function of the ID ---------- *)
 Section StateProofs.
   Variable sig_ok : event -> bool.
   Variable allowed : event -> list event -> bool.
-  Hypothesis Hstut : stutter_invariant allowed.
   Variable prov : N -> presp.
   Hypothesis Hhonest : honest prov.
   Variable hp : bool.
@@ -201,31 +245,44 @@ Section StateProofs.
         destruct (is_state b) eqn:Hb; [|discriminate]. now intros [= <-].
     Qed.
 
+    Lemma res_list_state aes : forallb is_state (res_list resolve0 aes) = true.
+    Proof.
+      apply forallb_forall. intros a Ha. unfold res_list in Ha. apply in_flat_map in Ha.
+      destruct Ha as (x & _ & Hx). destruct (resolve0 x) as [b|] eqn:Hr; simpl in Hx; [|tauto].
+      destruct Hx as [<-|[]]. eapply resolve0_state; eauto.
+    Qed.
+
     Lemma Inv_m0 : Inv resolve0 m0.
     Proof. intros x v H. unfold resolve0. now rewrite H. Qed.
 
     Lemma check_allowed_spec fuel e m :
       (2 * length (auth_ids e) < fuel)%nat -> Inv resolve0 m -> Ext m ->
-      exists m', check_allowed unit allowed (pcall_of prov) fuel hp e m tt =
-                 (if allowed e (res_list resolve0 (auth_ids e)) then VAllowed else VNotAllowed, m', tt)
-                 /\ Inv resolve0 m' /\ Ext m'.
+      exists v m', check_allowed unit allowed (pcall_of prov) fuel hp e m tt = (v, m', tt)
+        /\ (v = VAllowed <-> allowed_by allowed e (res_list resolve0 (auth_ids e)) = true)
+        /\ v <> VOutOfFuel /\ Inv resolve0 m' /\ Ext m'.
     Proof.
       intros Hf HI HE.
-      assert (HF : Fresh prov hp resolve0 m (auth_ids e)).
+      assert (HF : Fresh prov resolve0 hp m (auth_ids e)).
       { intros x _ Hx. unfold resolve0. now rewrite (HE x Hx). }
-      pose proof (gather_spec prov Hhonest hp resolve0 (auth_ids e) fuel [] m Hf HI HF) as G.
-      unfold gather_post in G.
-      assert (Hall : forallb (res_state resolve0) (auth_ids e) = true).
-      { apply forallb_forall. intros x _. unfold res_state.
-        destruct (resolve0 x) eqn:Hr; auto. eapply resolve0_state; eauto. }
-      rewrite Hall in G. destruct G as (d & m' & Hg & Hs & HI' & Hmono & _).
-      exists m'. unfold check_allowed. rewrite Hg. simpl.
-      rewrite (stut_allowed0 allowed Hstut e _ _ Hs). repeat split; auto.
-      intros x Hx. apply HE. destruct (mget m x) eqn:Hmx; auto.
-      assert (H1 : mget m' x = mget m x) by (apply Hmono; congruence). congruence.
+      destruct (gather_spec prov Hhonest resolve0 hp (auth_ids e) fuel [] m Hf HI HF)
+        as (st & acc' & m' & Hg & HI' & Hmono & _ & Hif).
+      rewrite admissible_split, res_list_state in Hif. simpl in Hif.
+      unfold check_allowed. rewrite Hg. unfold allowed_by, tuples_distinct.
+      assert (HE' : Ext m').
+      { intros x Hx. apply HE. destruct (mget m x) eqn:Hmx; auto.
+        assert (H1 : mget m' x = mget m x) by (apply Hmono; congruence). congruence. }
+      destruct (tuples_ok [] (res_list resolve0 (auth_ids e))).
+      - destruct Hif as [-> ->]. simpl.
+        destruct (allowed e (res_list resolve0 (auth_ids e))).
+        + exists VAllowed, m'. repeat split; auto. discriminate.
+        + exists VNotAllowed, m'. repeat split; auto; discriminate.
+      - destruct Hif as [-> | ->].
+        + exists VAddErr, m'. repeat split; auto; discriminate.
+        + exists VDupTuple, m'. repeat split; auto; discriminate.
     Qed.
 
-    Definition not_allowed0 (e : event) : bool := negb (allowed e (res_list resolve0 (auth_ids e))).
+    Definition not_allowed0 (e : event) : bool :=
+      negb (allowed_by allowed e (res_list resolve0 (auth_ids e))).
 
     Lemma auth_loop_spec fuel : forall l fails m,
       (forall e, In e l -> (2 * length (auth_ids e) < fuel)%nat) -> Inv resolve0 m -> Ext m ->
@@ -234,19 +291,23 @@ Section StateProofs.
     Proof.
       induction l as [|e l IH]; intros fails m Hf HI HE.
       - exists fails, m. split; auto. intros x. simpl. now rewrite orb_false_r.
-      - destruct (check_allowed_spec fuel e m (Hf e (or_introl eq_refl)) HI HE) as (m1 & Hc & HI1 & HE1).
+      - destruct (check_allowed_spec fuel e m (Hf e (or_introl eq_refl)) HI HE)
+          as (v & m1 & Hc & Hiff & Hnf & HI1 & HE1).
         simpl auth_loop. rewrite Hc.
         assert (Hf' : forall e', In e' l -> (2 * length (auth_ids e') < fuel)%nat) by (intros; apply Hf; now right).
-        destruct (allowed e (res_list resolve0 (auth_ids e))) eqn:Ha.
-        + destruct (IH fails m1 Hf' HI1 HE1) as (fl & m' & Hl & Hm). exists fl, m'. split; auto.
+        destruct (allowed_by allowed e (res_list resolve0 (auth_ids e))) eqn:Ha.
+        + assert (Hv : v = VAllowed) by (apply Hiff; reflexivity). subst v.
+          destruct (IH fails m1 Hf' HI1 HE1) as (fl & m' & Hl & Hm). exists fl, m'. split; auto.
           assert (Hn : not_allowed0 e = false) by (unfold not_allowed0; now rewrite Ha).
           intros x. rewrite Hm. simpl. rewrite Hn. simpl.
           now rewrite andb_false_r.
-        + destruct (IH (eid e :: fails) m1 Hf' HI1 HE1) as (fl & m' & Hl & Hm). exists fl, m'. split; auto.
-          assert (Hn : not_allowed0 e = true) by (unfold not_allowed0; now rewrite Ha).
-          intros x. rewrite Hm. simpl. rewrite Hn. simpl.
-          rewrite andb_true_r, (N.eqb_sym x (eid e)).
-          destruct (eid e =? x), (mem_N x fails); reflexivity.
+        + assert (Hv : v <> VAllowed) by (intros H; apply Hiff in H; congruence).
+          destruct (IH (eid e :: fails) m1 Hf' HI1 HE1) as (fl & m' & Hl & Hm). exists fl, m'. split.
+          * destruct v; try congruence; exact Hl.
+          * assert (Hn : not_allowed0 e = true) by (unfold not_allowed0; now rewrite Ha).
+            intros x. rewrite Hm. simpl. rewrite Hn. simpl.
+            rewrite andb_true_r, (N.eqb_sym x (eid e)).
+            destruct (eid e =? x), (mem_N x fails); reflexivity.
     Qed.
   End Table.
 
@@ -300,19 +361,20 @@ Section StateProofs.
       try (destruct (existsb _ l); reflexivity).
   Qed.
 
-  Theorem csr_exact fuel rauth rstate a s :
+  (* the result, whenever the scans pass: exact filter, never OutOfFuel *)
+  Lemma csr_passing fuel rauth rstate :
     let all := untrusted_events rauth ++ untrusted_events rstate in
     (forall e, In e all -> (2 * length (auth_ids e) < fuel)%nat) ->
-    check_state_response unit sig_ok allowed (pcall_of prov) fuel hp rauth rstate tt = (CsrOk a s, tt) ->
-    a = filter (good_id sig_ok allowed P all) (untrusted_events rauth) /\
-    s = filter (good_id sig_ok allowed P all) (untrusted_events rstate).
+    forallb is_state (untrusted_events rauth) = true ->
+    scan_state [] (untrusted_events rstate) = None ->
+    one_room all = true ->
+    check_state_response unit sig_ok allowed (pcall_of prov) fuel hp rauth rstate tt =
+    (CsrOk (filter (good_id sig_ok allowed P all) (untrusted_events rauth))
+           (filter (good_id sig_ok allowed P all) (untrusted_events rstate)), tt).
   Proof.
-    intros all Hfuel. unfold check_state_response.
-    destruct (forallb is_state (untrusted_events rauth)) eqn:Hsa; simpl; [|discriminate].
-    destruct (scan_state [] (untrusted_events rstate)) eqn:Hscan.
-    { apply scan_state_err in Hscan. destruct Hscan as [-> | ->]; discriminate. }
+    intros all Hfuel Hsa Hscan Hroom. unfold check_state_response.
+    rewrite Hsa, Hscan. simpl. fold all. rewrite Hroom. simpl.
     apply scan_state_none in Hscan.
-    fold all.
     set (sf := sig_failures sig_ok all). set (m0 := verified_map sf all).
     assert (Hall : forall e, In e all -> is_state e = true).
     { intros e He. unfold all in He. apply in_app_or in He.
@@ -323,47 +385,45 @@ Section StateProofs.
       apply Hall. eapply response_event_in; eauto. }
     destruct (auth_loop_spec m0 Hm0 fuel all sf m0 Hfuel (Inv_m0 m0)) as (fl & m' & Hl & Hmem).
     { intros x Hx. exact Hx. }
-    rewrite Hl. intros [= <- <-].
+    rewrite Hl.
     assert (Hkeep : forall e, negb (mem_N (eid e) fl) = good_id sig_ok allowed P all e).
     { intros e. rewrite Hmem. unfold good_id, good. rewrite good_id_bool. f_equal. f_equal.
       - unfold sf, sig_failures. now rewrite mem_N_map_filter.
       - apply existsb_ext_c. intros e'. unfold not_allowed0, m0, sf.
         now rewrite res_list_verified. }
-    unfold keep. split; apply filter_ext; intros e; apply Hkeep.
+    unfold keep. f_equal. f_equal; apply filter_ext; intros e; apply Hkeep.
   Qed.
 
-  (* totality: with enough fuel for the longest auth_events list the result is a whole-response
-     failure or the exact filter result, never OutOfFuel *)
   Theorem csr_shape fuel rauth rstate :
     let all := untrusted_events rauth ++ untrusted_events rstate in
     (forall e, In e all -> (2 * length (auth_ids e) < fuel)%nat) ->
     let r := check_state_response unit sig_ok allowed (pcall_of prov) fuel hp rauth rstate tt in
-    r = (CsrNoStateKey, tt) \/ r = (CsrDuplicate, tt) \/
+    whole_failure unit r tt \/
     r = (CsrOk (filter (good_id sig_ok allowed P all) (untrusted_events rauth))
                (filter (good_id sig_ok allowed P all) (untrusted_events rstate)), tt).
   Proof.
     intros all Hfuel r.
-    destruct r as [res u] eqn:Hr. destruct u. unfold r in Hr.
-    destruct res as [a s| | |].
-    - right. right. destruct (csr_exact fuel rauth rstate a s Hfuel Hr) as [-> ->]. reflexivity.
-    - now left.
-    - right. now left.
-    - exfalso. revert Hr. unfold check_state_response.
-      destruct (forallb is_state (untrusted_events rauth)) eqn:Hsa; simpl; [|discriminate].
-      destruct (scan_state [] (untrusted_events rstate)) eqn:Hscan.
-      { apply scan_state_err in Hscan. destruct Hscan as [-> | ->]; discriminate. }
-      apply scan_state_none in Hscan. fold all.
-      set (sf := sig_failures sig_ok all). set (m0 := verified_map sf all).
-      assert (Hall : forall e, In e all -> is_state e = true).
-      { intros e He. unfold all in He. apply in_app_or in He.
-        rewrite forallb_forall in Hsa, Hscan. destruct He; auto. }
-      assert (Hm0 : forall x b, mget m0 x = Some (Some b) -> is_state b = true).
-      { intros x b Hb. unfold m0, sf in Hb. rewrite verified_map_lookup in Hb.
-        destruct (response_event sig_ok all x) eqn:Hre; [|discriminate]. injection Hb as ->.
-        apply Hall. eapply response_event_in; eauto. }
-      destruct (auth_loop_spec m0 Hm0 fuel all sf m0 Hfuel (Inv_m0 m0)) as (fl & m' & Hl & _).
-      { intros x Hx. exact Hx. }
-      rewrite Hl. discriminate.
+    destruct (forallb is_state (untrusted_events rauth)) eqn:Hsa.
+    2:{ left. left. unfold r, check_state_response. now rewrite Hsa. }
+    destruct (scan_state [] (untrusted_events rstate)) eqn:Hscan.
+    { left. unfold r, check_state_response. rewrite Hsa, Hscan. simpl.
+      apply scan_state_err in Hscan. destruct Hscan as [-> | ->]; [left|right; left]; reflexivity. }
+    destruct (one_room all) eqn:Hroom.
+    2:{ left. right. right. unfold r, check_state_response. rewrite Hsa, Hscan. simpl.
+        fold all. now rewrite Hroom. }
+    right. unfold r. now apply csr_passing.
+  Qed.
+
+  Theorem csr_exact fuel rauth rstate a s :
+    let all := untrusted_events rauth ++ untrusted_events rstate in
+    (forall e, In e all -> (2 * length (auth_ids e) < fuel)%nat) ->
+    check_state_response unit sig_ok allowed (pcall_of prov) fuel hp rauth rstate tt = (CsrOk a s, tt) ->
+    a = filter (good_id sig_ok allowed P all) (untrusted_events rauth) /\
+    s = filter (good_id sig_ok allowed P all) (untrusted_events rstate).
+  Proof.
+    intros all Hfuel Hc. destruct (csr_shape fuel rauth rstate Hfuel) as [[H|[H|H]]|H];
+      simpl in H; rewrite Hc in H; try discriminate.
+    injection H as -> ->. auto.
   Qed.
 
   (* a fuel that is enough, computed from the response *)
@@ -420,35 +480,57 @@ Section StateProofs.
     destruct (find _ (rev s)); auto. destruct (find _ (rev a)); auto.
   Qed.
 
+  (* the outcome of the join checks once CheckStateResponse returned a and s *)
+  Lemma sj_after_csr fuel rauth rstate join a s :
+    (2 * length (auth_ids join) < fuel)%nat ->
+    check_state_response unit sig_ok allowed (pcall_of prov) fuel hp rauth rstate tt = (CsrOk a s, tt) ->
+    exists r, check_send_join unit sig_ok allowed (pcall_of prov) fuel hp rauth rstate join tt = (r, tt) /\
+      r <> SjOutOfFuel /\
+      (r = SjOk a s <-> allowed_by allowed join (join_auth_events P a s join) = true /\ allowed join s = true) /\
+      (forall a' s', r = SjOk a' s' -> a' = a /\ s' = s).
+  Proof.
+    intros Hfj Hc. unfold check_send_join. rewrite Hc.
+    pose proof (csr_ok_state unit sig_ok allowed (pcall_of prov) fuel hp rauth rstate tt a s tt Hc) as (Ha' & Hs' & _).
+    set (mJ := map_of_events s (map_of_events a [])).
+    destruct (check_allowed_spec mJ (fun x b => join_table_state a s x b Ha' Hs') fuel join mJ Hfj (Inv_m0 mJ))
+      as (v & m' & Hca & Hiff & Hnf & _ & _).
+    { intros x Hx. exact Hx. }
+    rewrite Hca.
+    assert (Hl : res_list (resolve0 mJ) (auth_ids join) = join_auth_events P a s join).
+    { unfold res_list, join_auth_events. apply flat_map_ext. intros x. unfold mJ. now rewrite join_table_resolve. }
+    rewrite Hl in Hiff.
+    destruct (allowed_by allowed join (join_auth_events P a s join)) eqn:A1.
+    - assert (Hv : v = VAllowed) by (apply Hiff; reflexivity). subst v.
+      destruct (allowed join s) eqn:A2.
+      + exists (SjOk a s). split; [reflexivity|]. split; [discriminate|]. split; [split; auto|].
+        intros a0 s0 [= <- <-]; auto.
+      + exists SjNotAllowedByState. split; [reflexivity|]. split; [discriminate|].
+        split; [split; [discriminate | intros [_ H]; discriminate]|]. discriminate.
+    - assert (Hv : v <> VAllowed) by (intros H; apply Hiff in H; congruence).
+      destruct v; try congruence;
+        (exists SjNotAllowedByAuth; split; [reflexivity|]; split; [discriminate|];
+         split; [split; [discriminate | intros [H _]; discriminate]|]; discriminate).
+  Qed.
+
   Theorem sj_accept_iff fuel rauth rstate join a s :
-    let all := untrusted_events rauth ++ untrusted_events rstate in
     (2 * length (auth_ids join) < fuel)%nat ->
     (check_send_join unit sig_ok allowed (pcall_of prov) fuel hp rauth rstate join tt = (SjOk a s, tt)
      <-> check_state_response unit sig_ok allowed (pcall_of prov) fuel hp rauth rstate tt = (CsrOk a s, tt)
-         /\ allowed join (join_auth_events P a s join) = true
+         /\ allowed_by allowed join (join_auth_events P a s join) = true
          /\ allowed join s = true).
   Proof.
-    intros all Hfj. unfold check_send_join.
-    destruct (check_state_response unit sig_ok allowed (pcall_of prov) fuel hp rauth rstate tt)
-      as [r ps1] eqn:Hc. destruct ps1.
-    destruct r as [a' s'| | |];
-      try (split; [discriminate | intros [H _]; discriminate]).
-    pose proof (csr_ok_state unit sig_ok allowed (pcall_of prov) fuel hp rauth rstate tt a' s' tt Hc) as [Ha' Hs'].
-    set (mJ := map_of_events s' (map_of_events a' [])).
-    destruct (check_allowed_spec mJ (fun x b => join_table_state a' s' x b Ha' Hs') fuel join mJ Hfj (Inv_m0 mJ))
-      as (m' & Hca & _ & _).
-    { intros x Hx. exact Hx. }
-    rewrite Hca.
-    assert (Hl : res_list (resolve0 mJ) (auth_ids join) = join_auth_events P a' s' join).
-    { unfold res_list, join_auth_events. apply flat_map_ext. intros x. unfold mJ. now rewrite join_table_resolve. }
-    rewrite Hl.
-    destruct (allowed join (join_auth_events P a' s' join)) eqn:A1.
-    - destruct (allowed join s') eqn:A2.
-      + split.
-        * intros [= <- <-]. auto.
-        * intros ([= <- <-] & _ & _). reflexivity.
-      + split; [discriminate|]. intros ([= <- <-] & _ & H). congruence.
-    - split; [discriminate|]. intros ([= <- <-] & H & _). congruence.
+    intros Hfj. split.
+    - intros Hsj.
+      destruct (check_state_response unit sig_ok allowed (pcall_of prov) fuel hp rauth rstate tt)
+        as [r ps1] eqn:Hc. destruct ps1.
+      destruct r as [a' s'| | | |];
+        try (unfold check_send_join in Hsj; rewrite Hc in Hsj; discriminate).
+      destruct (sj_after_csr fuel rauth rstate join a' s' Hfj Hc) as (r & Hr & _ & Hiff & Huniq).
+      rewrite Hr in Hsj. injection Hsj as ->. destruct (Huniq a s eq_refl) as [-> ->].
+      split; auto. apply Hiff. reflexivity.
+    - intros (Hc & H1 & H2).
+      destruct (sj_after_csr fuel rauth rstate join a s Hfj Hc) as (r & Hr & _ & Hiff & _).
+      rewrite Hr. f_equal. apply Hiff. auto.
   Qed.
 
   Theorem sj_no_out_of_fuel fuel rauth rstate join :
@@ -457,18 +539,9 @@ Section StateProofs.
     (2 * length (auth_ids join) < fuel)%nat ->
     fst (check_send_join unit sig_ok allowed (pcall_of prov) fuel hp rauth rstate join tt) <> SjOutOfFuel.
   Proof.
-    intros all Hf Hfj. unfold check_send_join.
-    pose proof (csr_shape fuel rauth rstate Hf) as Hs. simpl in Hs.
-    destruct (check_state_response unit sig_ok allowed (pcall_of prov) fuel hp rauth rstate tt)
-      as [r ps1] eqn:Hc. destruct ps1.
-    destruct r as [a' s'| | |]; try discriminate.
-    - pose proof (csr_ok_state unit sig_ok allowed (pcall_of prov) fuel hp rauth rstate tt a' s' tt Hc) as [Ha' Hs'].
-      set (mJ := map_of_events s' (map_of_events a' [])).
-      destruct (check_allowed_spec mJ (fun x b => join_table_state a' s' x b Ha' Hs') fuel join mJ Hfj (Inv_m0 mJ))
-        as (m' & Hca & _ & _).
-      { intros x Hx. exact Hx. }
-      rewrite Hca. destruct (allowed join _); simpl; [|discriminate].
-      destruct (allowed join s'); discriminate.
-    - exfalso. destruct Hs as [H|[H|H]]; discriminate.
+    intros all Hf Hfj.
+    destruct (csr_shape fuel rauth rstate Hf) as [[H|[H|H]]|H]; simpl in H.
+    1-3: unfold check_send_join; rewrite H; simpl; discriminate.
+    destruct (sj_after_csr fuel rauth rstate join _ _ Hfj H) as (r & Hr & Hnf & _). rewrite Hr. exact Hnf.
   Qed.
 End StateProofs.
